@@ -11,4 +11,6 @@ tmp=work/setup-hb
 rm -rf $tmp && mkdir -p $tmp && cp -r harness/. $tmp/ && sed "s#@REPO@#$REPO#" harness/go.mod.tmpl > $tmp/go.mod && cp $REPO/go.sum $tmp/go.sum
 ( cd $tmp && go build -tags verif ./... && go build -race -tags verif ./... ) || echo "warning: warm build failed"
 rm -rf $tmp
+( tmp2=work/setup-lt; rm -rf $tmp2 && cp -r locktab $tmp2 && cd $tmp2 && go build -o /dev/null . ) || echo "warning: locktab warm build failed"
+rm -rf work/setup-lt
 echo setup done
